@@ -17,7 +17,7 @@ import numpy as np
 from common import run_driver, VERIF
 from props.scalarfam import new_stats, finish, budget, run_oracle, oracle, fail, replay  # noqa: F401
 
-# six request shapes: sizes, footprint/dispersion, analytic, single/double
+# request shapes: sizes (even and odd), footprint/dispersion, analytic, single/double
 REQS = [
     dict(nx=8, ny=6, nz=6, fp=False, an=False, prec="double", seed=1),
     dict(nx=10, ny=10, nz=8, fp=True, an=False, prec="double", seed=2),
@@ -25,6 +25,9 @@ REQS = [
     dict(nx=8, ny=8, nz=6, fp=True, an=False, prec="single", seed=4),
     dict(nx=12, ny=6, nz=7, fp=False, an=False, prec="single", seed=5),
     dict(nx=6, ny=6, nz=5, fp=True, an=True, prec="double", seed=6),
+    # odd grid sizes: the padded size minus the (even) mode count is odd, the spectrum is re-inserted asymmetrically
+    dict(nx=9, ny=7, nz=6, fp=False, an=False, prec="double", seed=7),
+    dict(nx=7, ny=11, nz=5, fp=True, an=False, prec="single", seed=8),
 ]
 
 
@@ -85,6 +88,14 @@ from bldfm.solver import steady_state_transport_solver, ivp_solver
 import pyfftw
 hist = json.loads(sys.argv[1])
 out = []
+_kw = {}
+def request(i, prec, variant):
+    # a caller keeps its input arrays and passes the SAME objects again when it repeats a request: a solve that modifies
+    # its inputs in place is not a function of its arguments
+    key = (i, prec, variant)
+    if key not in _kw:
+        _kw[key] = C12.build_request(i, prec, variant)
+    return _kw[key]
 def state():
     cell = [c.cell_contents for c in ivp_solver.__closure__ if isinstance(c.cell_contents, dict)]
     comp = cell[0] if cell else {}
@@ -95,7 +106,7 @@ for op in hist:
     if op[0] == "T":
         config.NUM_THREADS = op[1]
     elif op[0] == "S":
-        kw = C12.build_request(op[1], op[2] if len(op) > 2 else None, op[3] if len(op) > 3 else 0)
+        kw = request(op[1], op[2] if len(op) > 2 else None, op[3] if len(op) > 3 else 0)
         try:
             grid, conc, flx = steady_state_transport_solver(**kw)
             a = np.ascontiguousarray(np.asarray(conc)); b = np.ascontiguousarray(np.asarray(flx))
@@ -110,7 +121,7 @@ for op in hist:
         import threading
         res = {}
         def one(tag, variant):
-            kw = C12.build_request(op[1], op[2], variant)
+            kw = request(op[1], op[2], variant)
             try:
                 grid, conc, flx = steady_state_transport_solver(**kw)
                 res[tag] = dict(conc=np.asarray(conc, dtype=float).ravel().tolist(), flx=np.asarray(flx, dtype=float).ravel().tolist())
@@ -306,6 +317,7 @@ def run(rng, tier, deep):
         for v in vs:
             h += [["S", i, None, v], ["S", i, None, 0]]
         hists.append(h)
+    hists.append([["S", 6], ["S", 0], ["T", 2], ["S", 6], ["S", 7], ["Z"], ["S", 6], ["S", 7], ["S", 6, "single"], ["S", 6]])
     for i in (0, 1, 5) if tier == "quick" else range(len(REQS)):
         hists.append([["S", i, "single"], ["S", i, "double"], ["S", i, "single"], ["S", i, "double"]])
         hists.append([["S", i, "double"], ["S", i, "single"], ["S", i, "double"]])
